@@ -6,6 +6,7 @@
 (*   count, cap                    tags  contents of slots 0..count-1      *)
 (* Constants: Esz (element size), HasX (constructor/destructor set).       *)
 (* Requested sizes are *terms* (SizeTerm): [k |-> "n", n |-> small value], *)
+(* [k |-> "pow", n |-> e] = 2^e (61..63: indexes whose byte offset wraps),  *)
 (* [k |-> "max", n |-> d] = SIZE_MAX - d, [k |-> "maxdiv", n |-> d] =      *)
 (* floor(SIZE_MAX / Esz) + d.  The model never does 64-bit arithmetic: it  *)
 (* decides by closed-form rules whether (t+1)*Esz is representable, and a  *)
@@ -17,16 +18,20 @@
 EXTENDS Naturals, Integers, Sequences, FiniteSets, TLC
 CONSTANTS Esz, HasX
 
+Pow2(k) == CASE k = 0 -> 1 [] k = 1 -> 2 [] k = 2 -> 4 [] k = 3 -> 8 [] k = 4 -> 16 [] k = 5 -> 32 [] k = 6 -> 64 [] OTHER -> 128
 Fresh == [base |-> FALSE, blk |-> 0, count |-> 0, cap |-> 0, tags |-> <<>>]
 Mk(s) == [s |-> s, ev |-> <<>>, ab |-> FALSE]
 Ev(m, e) == [m EXCEPT !.ev = Append(@, e)]
 
 Small(t) == t.k = "n"
+\* floor(log2 x) for the element sizes in use
+Log2(x) == CHOOSE k \in 0..6 : Pow2(k) <= x /\ x < Pow2(k + 1)
 \* is (t+1)*Esz representable in size_t ?
 Representable(t) ==
     CASE t.k = "n" -> TRUE
       [] t.k = "max" -> Esz = 1 /\ t.n >= 1
       [] t.k = "maxdiv" -> t.n <= -1
+      [] t.k = "pow" -> IF Esz \in {1, 2, 4, 8, 16, 32, 64} THEN t.n + Log2(Esz) <= 63 ELSE t.n + Log2(Esz) + 1 <= 64
 
 (* cstl_vector_set_capacity(v, sz) for a small sz; ok = the allocator succeeds *)
 SetCapSmall(m, sz, ok) ==
